@@ -73,6 +73,14 @@ class CircleCurve(AnalyticCurve):
 
         super().__init__(lambda t: f.rotate(self.rim.position, t, self.normal, self.origin.position), bounds)
 
+    def mirror(self, normal: VectorType, origin: Optional[PointType] = None):
+        """A reflection reverses the sense of rotation: the normal is flipped
+        so that every parameter keeps its (mirrored) point"""
+        super().mirror(normal, origin)
+        self.atop.position = 2 * self.origin.position - self.atop.position
+
+        return self
+
     @property
     def normal(self) -> NPVectorType:
         return self.atop.position - self.origin.position
